@@ -390,6 +390,10 @@ impl Shard {
             let prop = attribute(v, &self.cfg.mode);
             let mut replay = self.base_args.clone();
             replay.extend_from_slice(idx_args);
+            if let (Some(f), false) = (fault, replay.iter().any(|a| a == "--only")) {
+                replay.push("--fault-only".into());
+                replay.push(format!("{}:{}", f.kind, f.k));
+            }
             if let (Some(f), true) = (fault, replay.iter().any(|a| a == "--only")) {
                 replay.push("--fault".into());
                 replay.push(match fault2 {
@@ -468,11 +472,11 @@ fn sample_json(h: &History, out: &Outcome, fault: Option<Fault>) -> Json {
 pub fn main(args: &Args) -> i32 {
     std::panic::set_hook(Box::new(|info| {
         // injected panics are silent; anything else is printed (it is either a crate panic or a harness bug)
-        if info.payload().downcast_ref::<Injected>().is_none() {
+        let expected = try_w().map_or(false, |wd| wd.expected_panics.get() > 0);
+        if info.payload().downcast_ref::<Injected>().is_none() && !expected {
             let msg = info.payload().downcast_ref::<&str>().map(|s| s.to_string()).or_else(|| info.payload().downcast_ref::<String>().cloned()).unwrap_or_default();
-            if std::env::args().any(|a| a == "--verbose") {
-                eprintln!("panic: {} at {:?}", msg, info.location());
-            }
+            let _t = valloc::TagGuard::new(valloc::TAG_HARNESS);
+            eprintln!("panic: {} at {:?}", msg, info.location().map(|l| format!("{}:{}", l.file(), l.line())));
         }
     }));
     let mode = args.str("--mode", "C01");
@@ -515,6 +519,8 @@ pub fn main(args: &Args) -> i32 {
         None => (0..total).filter(|i| i % nshards == shard && upto.map_or(true, |u| *i <= u)).collect(),
     };
     let (only_f1, only_f2) = args.get("--fault").map(parse_fault).unwrap_or((None, None));
+    // replay of a faulted witness inside its shard: everything before it runs silently, it runs verbosely, then stop
+    let fault_only = args.get("--fault-only").map(parse_fault).and_then(|x| x.0);
     let mut fault_points_enumerated = 0u64;
     let mut fault_points_hit = 0u64;
 
@@ -529,8 +535,8 @@ pub fn main(args: &Args) -> i32 {
         } else {
             vec!["--count".to_string(), count.to_string(), "--shard".to_string(), shard.to_string(), "--nshards".to_string(), nshards.to_string(), "--faults".to_string(), faults.clone(), "--max-fault-points".to_string(), max_fault_points.to_string(), "--upto".to_string(), idx.to_string()]
         };
-        w().verbose.set(verbose && upto.map_or(true, |u| u == idx));
-        sh.cfg.verbose = verbose && upto.map_or(true, |u| u == idx);
+        let target = upto.map_or(true, |u| u == idx);
+        sh.cfg.verbose = verbose && target && fault_only.is_none();
         if mode == "C08diff" {
             diff_run(&mut sh, &h, &idx_args);
             continue;
@@ -586,10 +592,20 @@ pub fn main(args: &Args) -> i32 {
             if sh.stop {
                 break;
             }
+            let is_target = target && fault_only == Some(f);
+            sh.cfg.verbose = verbose && is_target;
             fault_points_enumerated += 1;
             let f2 = if faults == "double" && rng.chance(1, 3) { Some(Fault { kind: rng.idx(N_CB) as u8, k: 1 + rng.below(3) }) } else { None };
             let o = run_history(&h, &sh.cfg, Some(f), f2);
             sh.rep.evaluations += 1;
+            if sh.cfg.verbose {
+                for l in w().trace_log.borrow().iter() {
+                    eprintln!("{}", l);
+                }
+                for v in &o.viols {
+                    eprintln!("ORACLE {} {} {} :: {}", v.prop, v.oracle, v.sig, v.detail);
+                }
+            }
             if o.fired >= 1 {
                 fault_points_hit += 1;
                 sh.rep.set_add("fault_kinds_hit", Cb::from_u8(f.kind).map_or("?", |c| c.name()));
@@ -598,6 +614,9 @@ pub fn main(args: &Args) -> i32 {
                 }
             }
             sh.report(&h, &o, &idx_args, Some(f), f2);
+            if is_target {
+                sh.stop = true;
+            }
             if o.nontrivial {
                 let mut hh = vcommon::rng::Fnv::new();
                 hh.u64(h.hash());
